@@ -124,24 +124,46 @@ Proof.
 Qed.
 
 (** The family, context and ids the tag looks up are the ones it reports, when
-    its context operand is a string literal (or absent) and the message block
-    is not empty. *)
+    its context operand is a string literal (or absent) and the tag has message
+    text or a plural block. *)
 Lemma tr_call_literal pyint d args sing plural c :
   tr_call pyint d args sing plural = Ok c ->
   tr_literal args = true ->
-  mb_parts sing <> [] ->
+  (mb_parts sing <> [] \/ plural <> None) ->
   exists m, tr_messages args sing plural = Some m /\ mtext_of_call c = Some m.
 Proof.
   unfold tr_call, tr_literal, tr_messages, tr_context.
   destruct (tr_count pyint d args) as [n| | |]; try discriminate.
   intros H L NE. inversion H; subst; clear H.
-  destruct (mb_parts sing) as [|p ps] eqn:E; [congruence|].
+  assert (G : forall (X : option mtext),
+             match mb_parts sing, plural with [], None => None | _, _ => X end = X).
+  { intro X. destruct (mb_parts sing); [|reflexivity].
+    destruct plural; [reflexivity|]. destruct NE; congruence. }
+  rewrite G. clear G.
   destruct (targ_last TaContext args) as [p0|].
   - apply absent_or_pstr_some in L as [cx ->]. cbn [eval_prim py_truthy py_str].
     destruct (nonempty cx) eqn:N.
     + rewrite N. destruct plural; cbn; eauto.
     + destruct plural; cbn; eauto.
   - destruct plural; cbn; eauto.
+Qed.
+
+(** A reportable message looked up by the tag comes from a tag with message
+    text or a plural block. *)
+Lemma tr_call_reportable pyint d args sing plural c m :
+  tr_call pyint d args sing plural = Ok c ->
+  mtext_of_call c = Some m -> reportable m = true ->
+  mb_parts sing <> [] \/ plural <> None.
+Proof.
+  intros E M R. destruct plural as [pb|]; [right; discriminate|]. left.
+  intro Z. pose proof (tr_call_id _ _ _ _ _ _ E) as I.
+  destruct sing as [sp parts]. cbn [mb_parts] in Z. subst parts.
+  rewrite msg_text_no_parts in I.
+  unfold tr_call in E. destruct (tr_count pyint d args); try discriminate.
+  inversion E; subst; clear E.
+  destruct (match tr_context d args with
+            | Some c => if nonempty c then Some c else None
+            | None => None end); cbn in M; inversion M; subst; discriminate.
 Qed.
 
 (** * Non-vacuity *)
